@@ -44,6 +44,8 @@ def run(ctx):
     ncases = 2400 if quick else 250000
     env.update({"VERIF_SEED": str(ctx.seed), "VERIF_CASES": str(ncases), "VERIF_WATCHDOG_S": "10" if quick else "20",
                 "VERIF_DRIVER_BUDGET_S": "30" if quick else "1200"})
+    if not quick:
+        env["VERIF_TINY_ALL"] = "1"     # every input of length 0, 1 and 2 in the three encodings
     if ctx.replay:
         r = json.load(open(ctx.replay))
         inp = (r.get("replay") or {}).get("input")
@@ -137,6 +139,10 @@ def run(ctx):
                           {"driver_output": mlog[-2000:]}, found_input=False)
         # every leg has a floor (half of an undisturbed run): inputs evaluated, inputs the model compared
         floor_ev = ncases // 2 if quick else ncases * 4 // 10
+        floor_cases = ncases // 5      # mutated trees + byte-level cases are 40 % of VERIF_CASES; half of that
+        if summ.get("cases", 0) < floor_cases:
+            ctx.violation("c13-too-few-evaluations", "only %d mutated trees / byte-level cases were generated (floor %d); harness finished: %s"
+                          % (summ.get("cases", 0), floor_cases, finished), {}, found_input=False)
         if summ.get("evaluations", 0) < floor_ev or want["L"] < floor_ev * 8 // 10 or checks < floor_ev * 7 // 10:
             ctx.violation("c13-too-few-evaluations", "the run covered too little: %d inputs evaluated (floor %d), %d load records (floor %d), %d compared by the model (floor %d); "
                           "harness finished: %s, children killed: %d" % (summ.get("evaluations", 0), floor_ev, want["L"], floor_ev * 8 // 10, checks, floor_ev * 7 // 10, finished, deaths),
@@ -160,7 +166,7 @@ def run(ctx):
         "distinct_nontrivial": summ.get("nontrivial", 0),
         "rule": "evaluation = one guarded LoadNetwork call on one input (encoding, bytes). Inputs: valid saves of generated "
                 "networks mutated at the protobuf-tree level by 1-3 of 27 mutation kinds (incl. huge size / count fields alone and jointly, loaded in memory-limited one-shot children) and written in wire, JSON and text; "
-                "byte/character-level mutants of valid saves per encoding; random byte strings; the empty input. "
+                "byte/character-level mutants of valid saves per encoding; random byte strings; every input of length 0 and 1, the 2-byte inputs (all of them in the thorough tier), 1-3 byte prefixes of valid saves and of a byte order mark. Every successfully loaded network is also used under recover (GetCANID, builder operations, Decode, ExportBus, String, SaveNetwork). "
                 "non-trivial = distinct input that the decoder accepts (it reaches the loader proper and is also run through "
                 "the Coq loader model)",
         "distribution": {k: v for k, v in hist.items() if not k.startswith("base-")},
